@@ -258,9 +258,37 @@ func (w *WaitGroup) Go(f func()) {
 
 // ---- Map ----
 
-type Map struct{ real sync.Map }
+type Map struct {
+	real       sync.Map
+	registered bool
+}
+
+var (
+	allMapsMu sync.Mutex
+	allMaps   []*Map
+)
+
+// ResetAllMaps clears every shim Map that has been used so far.
+// Process-wide caches (type caches keyed by reflect.Type) otherwise make the
+// first execution of a scenario take a different path than the following ones,
+// which a stateless explorer cannot replay.
+func ResetAllMaps() {
+	allMapsMu.Lock()
+	defer allMapsMu.Unlock()
+	for _, m := range allMaps {
+		m.real.Clear()
+	}
+}
 
 func (m *Map) pt(kind string) {
+	if !m.registered {
+		allMapsMu.Lock()
+		if !m.registered {
+			m.registered = true
+			allMaps = append(allMaps, m)
+		}
+		allMapsMu.Unlock()
+	}
 	if s := sched.Cur(); s != nil {
 		s.Point(&sched.Op{Kind: kind, Obj: m})
 	}
